@@ -39,7 +39,7 @@ const ruleFlat = "rapid: flatten().on(1-2 tags)[.delimiter][.tolerance][.dropOri
 func genFlat(t *rapid.T) FlatCase {
 	var c FlatCase
 	c.Batch = rapid.IntRange(0, 2).Draw(t, "batch") == 0
-	c.On = rapid.SampledFrom([][]string{{"dc"}, {"dc", "x"}, {"x", "dc"}}).Draw(t, "on")
+	c.On = rapid.SampledFrom([][]string{{"dc"}, {"dc", "x"}, {"x", "dc"}, {"x"}}).Draw(t, "on")
 	c.Delim = rapid.SampledFrom([]string{"", "", "_", "::"}).Draw(t, "delim")
 	c.TolSec = int64(rapid.SampledFrom([]int{0, 0, 1, 2}).Draw(t, "tol"))
 	c.Drop = rapid.IntRange(0, 3).Draw(t, "drop") == 0
